@@ -411,6 +411,26 @@ func runC04(c *core.Ctx) {
 		}
 	}
 	c04Lagging(c, r)
+	if c.Batch < len(addFaultWhens) && c.Only < 0 {
+		when := addFaultWhens[c.Batch]
+		if _, ok := c.CaseRng(3000000, "injected inotify_add_watch ENOSPC when="+when); ok {
+			if fr, inj, ok := runAddFault(c, when); ok {
+				c.Res.Counters["add_fault_sessions"]++
+				c.Res.Counters["add_watch_calls_made_to_fail"] += int64(inj)
+				c.Eval(1)
+				c.Distinct("addfault", when)
+				if inj > 0 && len(fr.Failed) == 0 {
+					c.Violate("failed-add-reported-as-success", fmt.Sprintf("%d inotify_add_watch calls failed with ENOSPC (injected, when=%s) and every Add returned nil", inj, when), fr)
+				}
+				for _, cm := range fr.Complaints {
+					c.Violate("failed-add-changed-state", fmt.Sprintf("with inotify_add_watch failing (ENOSPC injected, when=%s): %s", when, cm), fr)
+				}
+				if c.Batch == 0 {
+					c.Sample(map[string]interface{}{"injected_add_watch_failures": inj, "session": fr})
+				}
+			}
+		}
+	}
 	// random long sequences and re-pointing templates
 	n := c.Pick(60, 600)
 	for i := 0; i < n; i++ {
